@@ -6,7 +6,7 @@ import math
 
 import numpy as np
 
-from checks.common import hash_tag, relayout, xf_build, xf_names
+from checks.common import hash_tag, relayout, xf_build, xf_names, si_cells
 from qmc import gen as G
 from qmc import oracle as O
 from qmc.loader import load
@@ -19,8 +19,8 @@ RULE = (
     "non-trivial = A non-zero; distinct = sha1(input bytes)"
 )
 BOUNDS = {
-    "quick": "m,n<=4 (tall, square, wide, m=1); all 2^n zero-column masks x 5 entry classes; every duplicated-column pair; ranks 0..min via products",
-    "thorough": "m,n<=6, 3 fill rows",
+    "quick": "m,n<=4 (tall, square, wide, m=1); all 2^n zero-column masks x 5 entry classes; every duplicated-column pair; ranks 0..min via products; exhaustive small-integer cells: all 2x2 over {0,1,-1,i,j,k}, 3x3 over {-1,0,1} (every 4th), 2x3/3x2 over {0,1,i,j} (every 4th)",
+    "thorough": "m,n<=6, 3 fill rows; exhaustive small-integer cells in full (2x2 over {0,1,-1,i,j,k}, 3x3 over {-1,0,1}, 2x3/3x2 over {0,1,i,j}) and 3x3 over {-1,0,1,2} (every 16th)",
 }
 THOROUGH_STREAMS = 8
 WALL_BUDGET = {"quick": 300, "thorough": 2400}
@@ -122,6 +122,10 @@ def cases(tier, seed):
         for e in (-50, 40):
             out.append({"key": f"scaled/{m}x{n}/2^{e}", "kind": "scaled", "m": m, "n": n, "cls": "generic", "row": 0, "e": e})
             out.append({"key": f"scaled-zero-col/{m}x{n}/2^{e}", "kind": "scaled", "m": m, "n": n, "cls": "ints", "row": 0, "e": e, "zc": 0})
+    # exhaustive small-integer matrices (every matrix over a small alphabet: exact ties, exact dependencies, exactly invariant subspaces)
+    for m, n, names in si_cells(tier):
+        for nm in names:
+            out.append({"key": f"si/{m}x{n}/{nm}", "kind": "xf", "m": m, "n": n, "cls": "generic", "row": 0, "xf": nm, "_fixed": True})
     # enumerated list of larger shapes (blocked / panelled code paths), full rank and one zero column
     for (m, n) in ((9, 7), (7, 9), (12, 12), (17, 5), (5, 17), (65, 3), (3, 65), (1, 9), (9, 1)):
         out.append({"key": f"large/{m}x{n}", "kind": "layout", "m": m, "n": n, "cls": "generic", "row": 0, "lay": "C"})
